@@ -311,9 +311,9 @@ func (d *Decls) zero(t types.Type) string {
 	case *types.Pointer, *types.Map, *types.Chan, *types.Signature:
 		return "0"
 	case *types.Slice:
-		return "nil-slice"
+		return "(mk-slice 0 0 0 0)"
 	case *types.Interface:
-		return "nil-iface"
+		return "(mk-iface 0 0)"
 	case *types.Array:
 		return fmt.Sprintf("((as const (Array Int %s)) %s)", d.sortOf(u.Elem()), d.zero(u.Elem()))
 	case *types.Struct:
